@@ -8,7 +8,10 @@ mod util;
 use util::*;
 use opcua::crypto::{self, x509::X509Data, KeySize, PrivateKey, RsaPadding, SecurityPolicy, X509};
 use opcua::types::{ByteString, UAString, UserNameIdentityToken, UserTokenPolicy, UserTokenType};
-use std::sync::OnceLock;
+use opcua::server::{builder::ServerBuilder, config::{ServerEndpoint, ServerUserToken}, state::ServerState};
+use opcua::sync::RwLock;
+use opcua::types::{ActivateSessionRequest, ExtensionObject, MessageSecurityMode, ObjectId, RequestHeader, SignatureData};
+use std::sync::{Arc, OnceLock};
 
 const POLS: [(SecurityPolicy, &str); 5] = [(SecurityPolicy::Basic128Rsa15, "Basic128Rsa15"), (SecurityPolicy::Basic256, "Basic256"),
     (SecurityPolicy::Basic256Sha256, "Basic256Sha256"), (SecurityPolicy::Aes128Sha256RsaOaep, "Aes128Sha256RsaOaep"),
@@ -16,6 +19,9 @@ const POLS: [(SecurityPolicy, &str); 5] = [(SecurityPolicy::Basic128Rsa15, "Basi
 const PADS: [(RsaPadding, &str, usize); 3] = [(RsaPadding::Pkcs1, "Pkcs1", 11), (RsaPadding::OaepSha1, "OaepSha1", 42), (RsaPadding::OaepSha256, "OaepSha256", 66)];
 const ALGS: [&str; 3] = ["http://www.w3.org/2001/04/xmlenc#rsa-1_5", "http://www.w3.org/2001/04/xmlenc#rsa-oaep", "http://opcfoundation.org/UA/security/rsa-oaep-sha2-256"];
 const KEYBITS: [u32; 3] = [1024, 2048, 4096];
+/// algorithm strings that name none of the three paddings (near misses of the real ones included)
+const OTHER_ALGS: [&str; 6] = ["http://www.w3.org/2001/04/xmlenc#rsa-oaep-mgf1p", "http://www.w3.org/2001/04/xmlenc#rsa-1_5 ", "http://www.w3.org/2001/04/xmlenc#RSA-OAEP",
+    "http://opcfoundation.org/UA/security/rsa-oaep-sha2-25", "x", "http://opcfoundation.org/UA/SecurityPolicy#Basic256Sha256"];
 
 fn idents() -> &'static Vec<(X509, PrivateKey)> {
     static C: OnceLock<Vec<(X509, PrivateKey)>> = OnceLock::new();
@@ -29,6 +35,36 @@ fn idents() -> &'static Vec<(X509, PrivateKey)> {
     })
 }
 
+/// users configured on the real server: (name, password); index 3 of `Auth.user` is a name that is not configured
+const USERS: [(&str, &str); 3] = [("alice", "sample1pwd"), ("empty", ""), ("uni", "pässwörd-水-🔑")];
+const ENDPOINT_URL: &str = "opc.tcp://localhost:4855/";
+
+/// a real ServerState (sample-like configuration: one sign+encrypt endpoint per policy, three
+/// user/password users); its certificate and private key are replaced per case
+fn server_state() -> &'static Arc<RwLock<ServerState>> {
+    static S: OnceLock<(opcua::server::server::Server, Arc<RwLock<ServerState>>)> = OnceLock::new();
+    &S.get_or_init(|| {
+        let ids: Vec<String> = USERS.iter().map(|u| format!("id_{}", u.0)).collect();
+        let path = "/";
+        let mut b = ServerBuilder::new().application_name("verif").application_uri("urn:verif").product_uri("urn:verif")
+            .create_sample_keypair(true).certificate_path("own/cert.der").private_key_path("private/private.pem")
+            .pki_dir("/tmp/verif-c16-pki").discovery_urls(vec![path.into()]);
+        for (i, u) in USERS.iter().enumerate() {
+            b = b.user_token(ids[i].clone(), ServerUserToken { user: u.0.to_string(), pass: Some(u.1.to_string()), x509: None, thumbprint: None });
+        }
+        b = b.endpoints(vec![
+            ("e0", ServerEndpoint::new_basic128rsa15_sign_encrypt(path, &ids)),
+            ("e1", ServerEndpoint::new_basic256_sign_encrypt(path, &ids)),
+            ("e2", ServerEndpoint::new_basic256sha256_sign_encrypt(path, &ids)),
+            ("e3", ServerEndpoint::new_aes128_sha256_rsaoaep_sign_encrypt(path, &ids)),
+            ("e4", ServerEndpoint::new_aes256_sha256_rsapss_sign_encrypt(path, &ids)),
+        ]);
+        let server = b.server().expect("server configuration");
+        let st = server.server_state();
+        (server, st)
+    }).1
+}
+
 #[derive(Clone, Debug)]
 pub enum Mutc { Intact, Truncate(usize), Extend(usize), Flip(usize), Random(usize), Null }
 #[derive(Clone, Debug)]
@@ -38,6 +74,13 @@ pub enum Case {
     /// `plain` encrypted block-wise with `public_encrypt` under padding `penc`, the cipher text
     /// mutated, then `legacy_password_decrypt` with padding `pdec` and nonce `n2`
     Crafted { key: usize, penc: usize, pdec: usize, plain: Vec<u8>, m: Mutc, seed: u64, n2: Vec<u8> },
+    /// a token whose EncryptionAlgorithm is null (0), "" (1) or a URI that names no known padding (2),
+    /// with arbitrary password bytes (or a null password), through `decrypt_user_identity_token_password`
+    Token { uri: u8, other: usize, null: bool, bytes: Vec<u8>, n2: Vec<u8> },
+    /// the server: the token made by `make_user_name_identity_token` for user `user` (index into
+    /// USERS, 3 = not configured), password `pw` and nonce `n` is presented to
+    /// `ServerState::authenticate_endpoint` of a real server whose session nonce is `n2`
+    Auth { key: usize, pol: usize, user: usize, pw: String, n: Vec<u8>, n2: Vec<u8> },
 }
 pub struct P;
 
@@ -140,6 +183,32 @@ impl Property for P {
                 v.push(Case::Crafted { key, penc: pdec, pdec: (pdec + 1) % 3, plain: layout(b"pw", &n32), m: Mutc::Intact, seed: 0, n2: n32.clone() });
             }
         }
+        // the server: right / wrong / empty password, users with an empty password, unknown user, other nonce
+        for key in 0..3 { for pol in 0..5 {
+            if key == 2 && pol % 2 == 1 { continue; }
+            for user in 0..4usize {
+                let right = if user < 3 { USERS[user].1 } else { "whatever" };
+                v.push(Case::Auth { key, pol, user, pw: right.into(), n: n32.clone(), n2: n32.clone() });
+                v.push(Case::Auth { key, pol, user, pw: right.into(), n: n32.clone(), n2: (2..=33).collect() });
+                v.push(Case::Auth { key, pol, user, pw: "".into(), n: n32.clone(), n2: n32.clone() });
+                v.push(Case::Auth { key, pol, user, pw: "".into(), n: n32.clone(), n2: (2..=33).collect() });
+                v.push(Case::Auth { key, pol, user, pw: format!("{}x", right), n: n32.clone(), n2: n32.clone() });
+            }
+        } }
+        // known finding C16-suffix-nonce at the server: "sample1" ++ ("pwd" ++ n') read with the nonce n' is alice's password
+        v.push(Case::Auth { key: 0, pol: 2, user: 0, pw: "sample1".into(), n: [b"pwd".to_vec(), n32.clone()].concat(), n2: n32.clone() });
+        // tokens that are not RSA encrypted: null / empty algorithm (plain text), unknown algorithm
+        for uri in 0..3u8 {
+            for other in 0..OTHER_ALGS.len() {
+                if uri != 2 && other > 0 { continue; }
+                v.push(Case::Token { uri, other, null: true, bytes: vec![], n2: n32.clone() });
+                v.push(Case::Token { uri, other, null: false, bytes: vec![], n2: n32.clone() });
+                v.push(Case::Token { uri, other, null: false, bytes: "pässwörd-🔑".as_bytes().to_vec(), n2: n32.clone() });
+                v.push(Case::Token { uri, other, null: false, bytes: vec![0x70, 0xc3], n2: vec![] });
+                v.push(Case::Token { uri, other, null: false, bytes: vec![0xff; 128], n2: n32.clone() });
+                v.push(Case::Token { uri, other, null: false, bytes: layout(b"pw", &n32), n2: n32.clone() });
+            }
+        }
         if tier == "thorough" {
             // every password length around the block boundaries of the smallest key
             for pol in [0usize, 2, 4] { for l in 0..=140usize { v.push(Case::RoundTrip { key: 0, pol, pw: "z".repeat(l), n: n32.clone(), n2: n32.clone() }); } }
@@ -148,6 +217,36 @@ impl Property for P {
     }
     fn gen(r: &mut Rng) -> Case {
         let key = match r.below(10) { 0..=4 => 0, 5..=8 => 1, _ => 2 };
+        if r.chance(1, 12) {
+            let m = pw_len(r).min(90);
+            let mut bytes = unicode_pw(r, m).into_bytes();
+            match r.below(4) {
+                0 if !bytes.is_empty() => { let i = r.below(bytes.len() as u64) as usize; bytes[i] = *r.pick(&[0x80u8, 0xc0, 0xc3, 0xe0, 0xed, 0xf4, 0xf5, 0xff]); }
+                1 => { let l = r.below(300) as usize; bytes = r.bytes(l); }
+                _ => {}
+            }
+            return Case::Token { uri: r.below(3) as u8, other: r.below(OTHER_ALGS.len() as u64) as usize, null: r.chance(1, 8), bytes, n2: nonce(r) };
+        }
+        if r.chance(1, 5) {
+            let user = match r.below(20) { 0..=9 => 0, 10..=14 => 1, 15..=17 => 2, _ => 3 };
+            let right = if user < 3 { USERS[user].1.to_string() } else { "sample1pwd".to_string() };
+            let pw = match r.below(10) {
+                0..=5 => right,
+                6 => String::new(),
+                7 => { let mut c: Vec<char> = right.chars().collect(); if !c.is_empty() { let i = r.below(c.len() as u64) as usize; c.truncate(i); } c.into_iter().collect() }
+                8 => format!("{}{}", right, unicode_pw(r, 4)),
+                _ => unicode_pw(r, 24),
+            };
+            let n = if r.chance(3, 4) { r.bytes(32) } else { nonce(r) };
+            let n2 = match r.below(10) {
+                0..=4 => n.clone(),
+                5 | 6 => { let mut x = n.clone(); if x.is_empty() { x.push(r.next() as u8) } else { let i = r.below(x.len() as u64) as usize; x[i] ^= 1 << r.below(8); } x }
+                7 => r.bytes(n.len()),
+                8 => { let mut x = n.clone(); x.pop(); x }
+                _ => nonce(r),
+            };
+            return Case::Auth { key, pol: r.below(5) as usize, user, pw, n, n2 };
+        }
         if r.chance(3, 5) {
             let m = pw_len(r); let pw = unicode_pw(r, m);
             let n = nonce(r);
@@ -211,6 +310,45 @@ impl Property for P {
                 };
                 let tag = format!("roundtrip-{}-{}", KEYBITS[*key], if n == n2 { "same-nonce" } else if n.len() == n2.len() { "other-nonce-same-len" } else { "other-nonce-other-len" });
                 let term = format!("(RoundTrip {} {} {} {} {})", k, POLS[*pol].1, zbytes(pw.as_bytes()), zbytes(n), zbytes(n2));
+                Out { tag, term, out }
+            }
+            Case::Auth { key, pol, user, pw, n, n2 } => {
+                let k = KEYBITS[*key] as usize / 8;
+                let policy_id = if *pol == 0 { "userpass_rsa_15" } else { "userpass_rsa_oaep" };
+                let policy = UserTokenPolicy { policy_id: UAString::from(policy_id), token_type: UserTokenType::UserName, issued_token_type: UAString::null(),
+                                               issuer_endpoint_url: UAString::null(), security_policy_uri: UAString::null() };
+                let cert = Some(ids[*key].0.clone());
+                let name = if *user < 3 { USERS[*user].0 } else { "mallory" };
+                let res = guarded(|| {
+                    let tok = crypto::make_user_name_identity_token(POLS[*pol].0, &policy, n, &cert, name, pw)?;
+                    let eo = ExtensionObject::from_encodable(ObjectId::UserNameIdentityToken_Encoding_DefaultBinary, &tok);
+                    let st = server_state();
+                    {
+                        let mut w = st.write();
+                        w.server_certificate = cert.clone();
+                        w.server_pkey = Some(PrivateKey::from_pem(&ids[*key].1.private_key_to_pem().unwrap()).unwrap());
+                    }
+                    let request = ActivateSessionRequest { request_header: RequestHeader::dummy(),
+                        client_signature: SignatureData { algorithm: UAString::null(), signature: ByteString::null() },
+                        client_software_certificates: None, locale_ids: None, user_identity_token: ExtensionObject::null(),
+                        user_token_signature: SignatureData { algorithm: UAString::null(), signature: ByteString::null() } };
+                    let r = st.read().authenticate_endpoint(&request, ENDPOINT_URL, POLS[*pol].0, MessageSecurityMode::SignAndEncrypt, &eo, &ByteString::from(n2));
+                    r.map(|_| ())
+                });
+                let out = match res { Ok(Ok(())) => vec![0], Ok(Err(_)) => vec![1], Err(_) => vec![-2] };
+                let stored = if *user < 3 { format!("(Some {})", zbytes(USERS[*user].1.as_bytes())) } else { "None".to_string() };
+                let tag = format!("server-{}-{}{}", KEYBITS[*key], if n == n2 { "same-nonce" } else if n.len() == n2.len() { "other-nonce-same-len" } else { "other-nonce-other-len" },
+                                  if out[0] == 0 { "-activated" } else { "" });
+                let term = format!("(Auth {} {} {} {} {} {})", k, POLS[*pol].1, stored, zbytes(pw.as_bytes()), zbytes(n), zbytes(n2));
+                Out { tag, term, out }
+            }
+            Case::Token { uri, other, null, bytes, n2 } => {
+                let alg = match uri { 0 => UAString::null(), 1 => UAString::from(""), _ => UAString::from(OTHER_ALGS[*other]) };
+                let secret = if *null { ByteString::null() } else { ByteString::from(bytes) };
+                let tok = UserNameIdentityToken { policy_id: UAString::from("p"), user_name: UAString::from("user"), password: secret, encryption_algorithm: alg };
+                let out = res_out(guarded(|| crypto::decrypt_user_identity_token_password(&tok, n2, &ids[0].1)));
+                let tag = format!("token-{}{}", ["null-algorithm", "empty-algorithm", "unknown-algorithm"][*uri as usize], if out[0] == 0 { "-accepted" } else { "" });
+                let term = format!("(Token {} {} {} {})", uri, coq_bool(*null), zbytes(bytes), zbytes(n2));
                 Out { tag, term, out }
             }
             Case::Crafted { key, penc, pdec, plain, m, seed, n2 } => {
